@@ -264,7 +264,7 @@ add('C11-stale-close-removes-replacement', 'mw2_11', 1, 'C11',
     change="sess.go UDPSession.Close: the listener clean-up moved above 'if !once { return ErrClosedPipe }'",
     needs="a peer reconnecting from the same address (the listener replaces S1 by S2), the application then closing S1 as applications do after a failed Read, and more data on the new conversation",
     checks={'C11 quick': "caught: 26 runs, C11/accept/wrong-conversation and accept-count oracles (after 'the application closes the replaced session' was added; missed before)"},
-    notes="First evaluation: missed. The harness never closed a session the listener had already closed by itself. It now does, a seeded 1 us .. 100 ms after the replacement.")
+    notes="First evaluation: missed. The harness never closed a session the listener had already closed by itself. It now does, a seeded 1 us .. 100 ms after the replacement. After fix 93f1d1b (R16) Close removes its session by identity; the change is kept in a form ported to that tree (it re-introduces the by-address removal, early), the diff as the agent wrote it is kept beside it; re-evaluated on the fixed tree: caught, 252 violations.")
 
 add('C11-source-filter-ignores-port', 'mw2_11', 2, 'C11',
     "sameUDPAddr: 'a.Port != b.Port || a.Zone != b.Zone' becomes '&&': with empty zones the port is never compared, a dialled session accepts datagrams from any port of its peer's host",
@@ -438,6 +438,27 @@ for _id, _d in {
     'C04-reconstructed-packet-treated-as-regular': ['mw2_03 mutant1 (C03 agent, round 2)'],
     'C12-probe-wait-not-reset': ['mw2_03 mutant2 (C03 agent, round 2)'],
     'C19-foreign-conversation-oob-resets-session': ['mw2_19 mutant2 (C19 agent, round 2)'],
+}.items():
+    for _e in E:
+        if _e['id'] == _id:
+            _e['duplicate_reports'] += _d
+
+add('C13-next-reader-forgets-carry-over', 'mw3_13', 2, 'C13',
+    "notifyNextReader passes the wake-up on only if a whole message is queued, not if a partly read one is left in the session's carry-over buffer",
+    change="sess.go notifyNextReader: len(s.bufptr) > 0 || s.kcp.PeekSize() > 0  ->  s.kcp.PeekSize() > 0",
+    needs="at least two goroutines blocked in Read on one session when data arrives, the woken reader's buffer smaller than the message, no further complete message behind it and no later packet",
+    checks={'C13 quick': "caught: 690 runs, C13/missed-wakeup/read-pending-with-data 'a reader has been blocked in Read for 126.5us although data is readable (carry-over 387 bytes, next message -1 bytes)' (read buffers smaller than a message in a third of the runs, added in response; missed before)"},
+    notes="First evaluation: missed. Every reader of the blocking scenario used a 1500-byte buffer, so no Read ever left a remainder behind. A third of the runs now use buffers smaller than the message (the content check is off there - pieces go to whichever reader comes next - the wake-up rules stay on).")
+
+# round-3 duplicates
+for _id, _d in {
+    'C13-write-timer-not-reenabled': ['mw3_13 mutant1 (C13 agent, round 3)'],
+    'C11-stale-close-removes-replacement': ['mw3_11 mutant1 (C11 agent, round 3)'],
+    'C01-recv-forgets-rcv-nxt': ['mw3_01 mutant1 (C01 agent, round 3)'],
+    'C01-send-admits-256-fragments': ['mw3_01 mutant2 (C01 agent, round 3)'],
+    'C13-no-read-event-after-fec-recovery': ['mw3_02 mutant1 (C02 agent, round 3)'],
+    'C18-timer-rearmed-for-the-new-task': ['mw3_02 mutant2 (C02 agent, round 3)'],
+    'C15-recheck-before-backlog-push': ['mw3_15 mutant2 (C15 agent, round 3)'],
 }.items():
     for _e in E:
         if _e['id'] == _id:
